@@ -88,7 +88,7 @@ def project(obj) -> Dict[str, Any]:
 HOST = {"InitNewApp", "OpenEPRSocket", "Subroutine", "StopApp", "Signal"}
 
 
-MODES = ("plain", "buffer-reused", "modified-after-a-first-serialisation")
+MODES = ("plain", "buffer-reused", "modified-after-a-first-serialisation", "numpy-integers")
 FIXED = {"InitNewApp": ("app_id", "max_qubits"), "OpenEPRSocket": ("app_id", "epr_socket_id", "remote_node_id", "remote_epr_socket_id", "min_fidelity"),
          "StopApp": ("app_id",), "Done": ("msg_id",), "Error": ("err_code",), "ReturnReg": ("value",)}
 
@@ -121,6 +121,14 @@ def roundtrip(m: Dict[str, Any], mode: str = "plain") -> Dict[str, Any]:
             want = isa.reg(m["register"]).cstruct
             obj.register.register_name = want.register_name
             obj.register.register_index = want.register_index
+        return project(des(bytes(obj)))
+    if mode == "numpy-integers" and m["t"] == "ReturnArray":
+        # the values a simulator backend hands over: numpy integers of several widths instead of builtin ints
+        import numpy as np
+        kinds = (np.int64, np.int32, np.int16, np.int8)
+        vals = [None if e[0] == 0 else (kinds[j % 4](e[1]) if -(2 ** (63, 31, 15, 7)[j % 4]) <= e[1] < 2 ** (63, 31, 15, 7)[j % 4] else np.int64(e[1]))
+                for j, e in enumerate(m["values"])]
+        obj = M.ReturnArrayMessage(address=m["address"], values=vals)
         return project(des(bytes(obj)))
     obj = build(m)
     raw = bytes(obj)
@@ -236,7 +244,7 @@ def run(prop: str, tier: str) -> int:
                 ln = rng.choice([0, 1, 2, 5, 10, 33, 64])
                 m = {"t": t, "address": i32(),
                      "values": [[0, 0] if rng.random() < 0.3 else [1, i32()] for _ in range(ln)]}
-            row = {"id": i + 1, "sent": m, "err": "", "mode": MODES[i % 3] if i < n else "plain"}
+            row = {"id": i + 1, "sent": m, "err": "", "mode": MODES[i % len(MODES)] if i < n else "plain"}
             try:
                 row["got"] = roundtrip(m, row["mode"])
             except Exception as ex:
